@@ -421,7 +421,7 @@ def check_step(run, last_op, pending):
         user = {n: v for n, v in orig.items() if n != attr}
         qpaths, req = enc_request(run, obj)
         obs = {'model': i, 'paths': qpaths, 'active': None, 'per_path': [dict() for _ in qpaths]}
-        pending.append((req, obs))
+        pending.append(('c11hsm', req, obs))
         act = active_paths(run, obj)
         obs['active'] = act
         cur = getattr(obj, attr)
@@ -544,21 +544,25 @@ def check_step(run, last_op, pending):
             setattr(twin, attr, copy.deepcopy(cur))
     # ---- get_transitions -------------------------------------------------------------------
     table = all_transitions(m)
+    where = {id(t): (pre, e, t.source.split(sep), None if t.dest is None else t.dest.split(sep)) for pre, e, t in table}
+    queries = []      # (trigger, src path | None, dst path | None, result of the real call)
     got = m.get_transitions()
+    queries.append(('', None, None, got))
     if sorted(map(id, got)) != sorted(id(t) for _pre, _e, t in table):
         bad('monitor', 'get_transitions-all-not-exact', got=len(got), expected=len(table))
     for e in events + ['nope']:
         got = m.get_transitions(e)
+        queries.append((e, None, None, got))
         if sorted(map(id, got)) != sorted(id(t) for _pre, ev, t in table if ev == e):
             bad('monitor', 'get_transitions-by-trigger-not-exact', trigger=e, got=len(got))
     rng = random.Random(len(table) * 7 + len(paths))
-    any_local = any(pre for pre, _e, _t in table)
     for _ in range(12):
         src = rng.choice([None] + paths)
         dst = rng.choice([None] + paths)
         if src is None and dst is None:
             continue
         got = m.get_transitions('', '*' if src is None else sep.join(src), '*' if dst is None else sep.join(dst))
+        queries.append(('', src, dst, got))
         exp = [t for pre, _e, t in table
                if (src is None or pre + t.source.split(sep) == src) and
                (dst is None or (t.dest is not None and pre + t.dest.split(sep) == dst))]
@@ -571,12 +575,107 @@ def check_step(run, last_op, pending):
             bad('monitor', 'get_transitions-filter-not-exact', sig, source=src, dest=dst,
                 got=[(t.source, t.dest) for t in got], expected=[(t.source, t.dest) for t in exp])
             break
+    pending.append(('c11trans', enc_trans_request(paths, table, sep, queries),
+                    {'queries': [(q[0], q[1], q[2]) for q in queries],
+                     'results': [sorted((where[id(t)] for t in q[3]), key=repr) for q in queries]}))
     return fails
 
 
-def correspond(obs, ans):
+def enc_trans_request(paths, table, sep, queries):
+    out = [len(paths)]
+    for p in paths:
+        out += enc_path(p)
+    scopes = []
+    for pre, e, t in table:
+        sc = next((x for x in scopes if x[0] == pre), None)
+        if sc is None:
+            sc = (pre, [])
+            scopes.append(sc)
+        ev = next((x for x in sc[1] if x[0] == e), None)
+        if ev is None:
+            ev = (e, [])
+            sc[1].append(ev)
+        ev[1].append(t)
+    out.append(len(scopes))
+    for pre, evs in scopes:
+        out += enc_path(pre)
+        out.append(len(evs))
+        for e, ts in evs:
+            out += enc_name(e)
+            out.append(len(ts))
+            for t in ts:
+                out += enc_path(t.source.split(sep))
+                out += [0] if t.dest is None else [1] + enc_path(t.dest.split(sep))
+    out.append(len(queries))
+    for trig, src, dst, _got in queries:
+        out += ([0] if not trig else [1] + enc_name(trig)) + enc_path(src or []) + enc_path(dst or [])
+    return out
+
+
+def correspond_trans(obs, ans):
+    if ans == 'bad-input':
+        raise common.MachineryError('c11trans rejected its input')
+    c = Cursor([int(x) for x in ans.split()])
+
+    def path():
+        return c.lst(c.name)
+    for q, impl in zip(obs['queries'], obs['results']):
+        model = sorted(c.lst(lambda: (path(), c.name(), path(), (path() if c.nat() else None))), key=repr)
+        if model != [tuple(x) for x in impl]:
+            return ('get_transitions', {'query': q, 'impl': impl, 'model': model})
+    return None
+
+
+def wrapper_steps(machine, sep):
+    """the FunctionWrapper binding steps of add_model in the code's order: (top-level attribute name, is-step?, path
+    below the top-level name empty?) — root `to_` events first, then the states depth first with their scopes' events"""
+    steps = []
+
+    def ev_steps(events):
+        for e in events:
+            if e.startswith('to_'):
+                path = e[3:].split(sep)
+                steps.append(('to_' + path[0], False, len(path) == 1))
+
+    def walk(holder, prefix):
+        for name, st in holder.states.items():
+            p = prefix + [name]
+            steps.append(('is_' + p[0], True, len(p) == 1))
+            ev_steps(st.events)
+            walk(st, p)
+    ev_steps(machine.events)
+    walk(machine, [])
+    return steps
+
+
+def enc_wrap_request(override, obj, steps):
+    from transitions.extensions.nesting import FunctionWrapper
+    names = []
+    for n, _i, _r in steps:
+        if n not in names:
+            names.append(n)
+    out = [int(override), len(names)]
+    for n in names:
+        if not hasattr(obj, n):
+            k = 0
+        else:
+            v = getattr(obj, n)
+            k = 3 if isinstance(v, FunctionWrapper) else 2 if v is None else 1
+        out += enc_name(n) + [k]
+    out.append(len(steps))
+    for n, i, r in steps:
+        out += enc_name(n) + [int(i), int(r)]
+    return out
+
+
+def correspond(kind, obs, ans):
     """compare the observations of one step / model with the Lean model's answer to the request built from the
     real machine's tables at that moment"""
+    if kind == 'c11trans':
+        return correspond_trans(obs, ans)
+    if kind == 'c11wrap':
+        code = {'ok': '0', 'AttributeError': '1', 'AssertionError': '2'}.get(obs['outcome'], '9')
+        return None if ans.strip() == code else ('wrapper_binding', {'impl': obs['outcome'], 'model': ans.strip(), 'op': obs['op']})
     lean = parse_answer(ans, obs['paths'])
     for p, ob, lp in zip(obs['paths'], obs['per_path'], lean):
         for key, what in (('is_access', 'is_access_names'), ('to_access', 'to_access_names'), ('triggers', 'get_triggers'),
@@ -600,7 +699,12 @@ def run_case(case):
         return [], facts, pending
     fails = []
     for k, op in enumerate(case['ops']):
+        wreq = None
+        if op[0] == 'model' and case['sep'] != '_' and op[1] not in run.registered:
+            wreq = enc_wrap_request(case['override'], run.objs[op[1]], wrapper_steps(run.machine, case['sep']))
         r = run.do(op)
+        if wreq is not None:
+            pending.append(('c11wrap', wreq, {'outcome': 'ok' if r[0] == 'ok' else r[1], 'op': op}))
         facts['steps'] += 1
         facts['fired'] += int(r == ('ret', True) or (op[0] == 'to' and r == ('ok',)))
         if r[0] == 'raised' and op[0] in ('model', 'state', 'trans', 'local'):
